@@ -13,7 +13,6 @@ import decimal
 import re
 import textwrap
 
-from functools import lru_cache as cache
 from decimal import Decimal
 
 import dateutil.parser
@@ -869,6 +868,9 @@ class Row:
 
     rowid = None
 
+    # The rowid of the last row whose posting was added to the running balance.
+    balance_rowid = None
+
     # The current posting being evaluated.
     posting = None
 
@@ -1229,15 +1231,14 @@ def weight(context):
 
 
 @column(inventory.Inventory)
-@cache(maxsize=1)
 def balance(context):
     """The balance for the posting. These can be summed into inventories."""
-    # Caching protects against multiple balance updates per row when
-    # the columns appears more than once in the execurted query. The
-    # rowid in the row context guarantees that otherwise identical
-    # rows do not hit the cache and thus that the balance is correctly
-    # updated.
-    context.balance.add_position(context.posting)
+    # Protect against multiple balance updates per row when the column
+    # appears more than once in the executed query: remember in the
+    # row context itself the rowid of the last row accounted for.
+    if context.balance_rowid != context.rowid:
+        context.balance.add_position(context.posting)
+        context.balance_rowid = context.rowid
     return copy.copy(context.balance)
 
 
